@@ -178,3 +178,72 @@ Proof.
     assert (B1 : (1 + t) * ((1 + eps) * / (2 - Xq)) <= (1 + t) * (1 + 4.19 * eps)) by (apply Rmult_le_compat_l; lra).
     unfold t in *. nra.
 Qed.
+
+(* ---------------------------------------------------------------- the discriminant IS accurate when one of b^2, 4ac dominates *)
+Lemma qdisc_lower (a b c : C) :
+  Cmod b * Cmod b - 4 * (Cmod a * Cmod c) <= Cmod (qdisc a b c) /\
+  4 * (Cmod a * Cmod c) - Cmod b * Cmod b <= Cmod (qdisc a b c).
+Proof.
+  unfold qdisc. split.
+  - assert (K : Cmod (b * b)%C <= Cmod (b * b - a * RtoC (INR 4) * c)%C + Cmod (a * RtoC (INR 4) * c)%C).
+    { replace (b * b)%C with ((b * b - a * RtoC (INR 4) * c) + a * RtoC (INR 4) * c)%C at 1 by ring. apply Cmod_triangle. }
+    rewrite !Cmod_mult, Cmod_INR4 in K. lra.
+  - assert (K : Cmod (a * RtoC (INR 4) * c)%C <= Cmod (b * b - a * RtoC (INR 4) * c)%C + Cmod (b * b)%C).
+    { replace (a * RtoC (INR 4) * c)%C with (- (b * b - a * RtoC (INR 4) * c) + b * b)%C at 1 by ring.
+      eapply Rle_trans; [apply Cmod_triangle|]. rewrite Cmod_opp. lra. }
+    rewrite !Cmod_mult, Cmod_INR4 in K. lra.
+Qed.
+
+Theorem disc_accurate_dominant_lemma (eps : R) (O : RoundOps) (a b c : C) :
+  0 <= eps <= / 100 -> std_model eps O ->
+  8 * (Cmod a * Cmod c) <= Cmod b * Cmod b \/ 2 * (Cmod b * Cmod b) <= 4 * (Cmod a * Cmod c) ->
+  disc_accurate O a b c (15.33 * eps).
+Proof.
+  intros Heps HO Hdom.
+  destruct (quad_core_o eps O a b c Heps HO) as (_ & HD & _). cbv zeta in HD.
+  destruct (numeric_bounds eps Heps) as (N1 & _).
+  destruct (qdisc_lower a b c) as [L1 L2].
+  unfold disc_accurate.
+  set (P := Cmod b * Cmod b + 4 * (Cmod a * Cmod c)) in *.
+  set (X5 := (1 + eps) * (1 + eps) * (1 + eps) * (1 + eps) * (1 + eps)) in *.
+  assert (PP : 0 <= P).
+  { unfold P. assert (0 <= Cmod b * Cmod b) by apply Rle_0_sqr.
+    assert (0 <= Cmod a * Cmod c) by (apply Rmult_le_pos; apply Cmod_ge_0). lra. }
+  assert (P3 : P <= 3 * Cmod (qdisc a b c)) by (unfold P; destruct Hdom; lra).
+  assert (K1 : (X5 - 1) * P <= 5.11 * eps * P) by (apply Rmult_le_compat_r; lra).
+  assert (K2 : 5.11 * eps * P <= 5.11 * eps * (3 * Cmod (qdisc a b c))) by (apply Rmult_le_compat_l; lra).
+  lra.
+Qed.
+
+Theorem quadratic_forward_dominant_lemma (eps : R) (O : RoundOps) (a b c : C) :
+  0 <= eps <= / 100 -> std_model eps O -> a <> C0 ->
+  8 * (Cmod a * Cmod c) <= Cmod b * Cmod b \/ 2 * (Cmod b * Cmod b) <= 4 * (Cmod a * Cmod c) ->
+  exists r0 r1 x0 x1 : C, poly_solve (RoundRAo eps O) [c; b; a] false = Ok ([r0; r1], []) /\
+    (forall x : C, (a * x * x + b * x + c)%C = (a * (x - x0) * (x - x1))%C) /\
+    Cmod (r0 - x0)%C <= 37 * eps * Cmod x0 /\ Cmod (r1 - x1)%C <= 37 * eps * Cmod x1.
+Proof.
+  intros Heps HO Ha Hdom.
+  pose proof (disc_accurate_dominant_lemma eps O a b c Heps HO Hdom) as HD.
+  destruct (quadratic_forward_lemma eps O a b c (15.33 * eps) Heps HO Ha ltac:(lra) HD) as (r0 & r1 & x0 & x1 & E & F & B0 & B1).
+  exists r0, r1, x0, x1. split; [exact E|]. split; [exact F|].
+  pose proof (Cmod_ge_0 x0). pose proof (Cmod_ge_0 x1). split; nra.
+Qed.
+
+(* non-vacuity: x^2 - 5x + 2 (b^2 = 25 >= 16 = 8|a||c|) is in the dominant case *)
+Lemma forward_dominant_nonvacuous :
+  RtoC 1 <> C0 /\ 8 * (Cmod (RtoC 1) * Cmod (RtoC 2)) <= Cmod (RtoC (-5)) * Cmod (RtoC (-5)).
+Proof.
+  split; [intros H; apply RtoC_inj in H; lra|].
+  rewrite !Cmod_R. rewrite (Rabs_pos_eq 1), (Rabs_pos_eq 2), (Rabs_left (-5)) by lra. lra.
+Qed.
+
+Lemma forward_nonvacuous :
+  (0 <= / 1024 <= / 100) /\ std_model (/ 1024) (pert_ops (/ 1024)) /\ RtoC 1 <> C0 /\ (0 <= 15.33 * / 1024 <= / 6) /\
+  disc_accurate (pert_ops (/ 1024)) (RtoC 1) (RtoC (-5)) (RtoC 2) (15.33 * / 1024).
+Proof.
+  destruct forward_dominant_nonvacuous as [N D].
+  assert (H : 0 <= / 1024 <= / 100) by lra.
+  assert (M : std_model (/ 1024) (pert_ops (/ 1024))) by (apply pert_std_model; lra).
+  split; [exact H|]. split; [exact M|]. split; [exact N|]. split; [lra|].
+  apply (disc_accurate_dominant_lemma (/ 1024) _ _ _ _ H M). left. exact D.
+Qed.
